@@ -204,7 +204,7 @@ func main() {
 				every := b.P("every", 1)
 				for idx := b.From; idx < b.To; idx++ {
 					rng := c.Rand(idx)
-					cfg := mfs.GenCfg{Names: []string{"a", "b", "c"}, MaxDepth: 3, Spell: true, Views: idx%3 != 0,
+					cfg := mfs.GenCfg{Names: namePool(idx), MaxDepth: 3, Spell: true, Views: idx%3 != 0,
 						PrecondBias: 0.8, Weights: mfs.DefaultWeights(), BigData: idx%7 == 0, NoDestInsideSrc: idx%5 != 0}
 					if idx%11 == 0 {
 						cfg.Names = []string{"a", "b"}
@@ -244,4 +244,13 @@ func main() {
 			return "all histories of length ≤ 2 over the fixed operation alphabet"
 		},
 	})
+}
+
+// namePool: every fourth history uses names one of which is a string prefix of another ("a" /
+// "ab"): code that compares paths as strings instead of element by element confuses them.
+func namePool(idx int) []string {
+	if idx%4 == 1 {
+		return []string{"a", "ab", "b"}
+	}
+	return []string{"a", "b", "c"}
 }
